@@ -9,6 +9,7 @@ import (
 	"sort"
 	"strconv"
 	"strings"
+	"time"
 )
 
 func main() {
@@ -53,6 +54,8 @@ func cmdRun(args []string) int {
 	solver := fs.String("solver", "z3", "z3|z3-new|cvc5")
 	timeout := fs.Int("timeout", 20000, "per-query timeout ms")
 	panics := fs.Bool("panics", true, "report panics as violations")
+	deadline := fs.Int("deadline", 0, "stop after this many seconds")
+	single := fs.String("path", "", "run only the path with this decision vector (comma separated), with tracing")
 	fs.Parse(args)
 
 	ov, err := harnessOverlay(*repo, *pkg, *pkgName, strings.Split(*files, ","))
@@ -86,6 +89,18 @@ func cmdRun(args []string) int {
 	ex.workers = *workers
 	ex.solver = *solver
 	ex.timeout = *timeout
+	if *single != "" {
+		var dec []int
+		for _, f := range strings.Split(*single, ",") {
+			v, _ := strconv.Atoi(f)
+			dec = append(dec, v)
+		}
+		ex.RunSingle(dec)
+		return 0
+	}
+	if *deadline > 0 {
+		ex.deadline = time.Now().Add(time.Duration(*deadline) * time.Second)
+	}
 	st := ex.Run()
 	printStats(st)
 	if len(st.Violations) > 0 {
@@ -96,7 +111,7 @@ func cmdRun(args []string) int {
 
 func printStats(st *Stats) {
 	fmt.Printf("paths=%d kinds=%v steps=%d asserts=%d wall=%.1fs\n", st.Paths, st.PathKinds, st.Steps, st.Asserts, st.Wall.Seconds())
-	fmt.Printf("queries=%d sat=%d unsat=%d unknown=%d errors=%d solver=%.1fs\n", st.Queries.Queries, st.Queries.Sat, st.Queries.Unsat, st.Queries.Unknown, st.Queries.Errors, st.Queries.Time.Seconds())
+	fmt.Printf("queries=%d sat=%d unsat=%d unknown=%d errors=%d solver=%.1fs hist(<5ms,<20ms,<100ms,<1s,>=1s)=%v\n", st.Queries.Queries, st.Queries.Sat, st.Queries.Unsat, st.Queries.Unknown, st.Queries.Errors, st.Queries.Time.Seconds(), st.Queries.Hist)
 	keys := func(m map[string]int) []string {
 		var ks []string
 		for k := range m {
@@ -110,6 +125,21 @@ func printStats(st *Stats) {
 	}
 	for _, k := range keys(st.Unwind) {
 		fmt.Printf("UNWIND x%d: %s\n", st.Unwind[k], k)
+	}
+	type kv struct {
+		k string
+		n int
+	}
+	var cs []kv
+	for k, n := range st.CasePaths {
+		cs = append(cs, kv{k, n})
+	}
+	sort.Slice(cs, func(i, j int) bool { return cs[i].n > cs[j].n })
+	for i, c := range cs {
+		if i >= 12 {
+			break
+		}
+		fmt.Printf("CASE paths=%d %s\n", c.n, c.k)
 	}
 	var notes []string
 	for n := range st.Notes {
@@ -126,6 +156,6 @@ func printStats(st *Stats) {
 		if len(d) > 400 {
 			d = d[:400]
 		}
-		fmt.Printf("VIOLATION-CANDIDATE kind=%s label=%s msg=%q draws=%s\n", v.Kind, v.Label, v.Msg, d)
+		fmt.Printf("VIOLATION-CANDIDATE kind=%s label=%s msg=%q path=%v draws=%s\n", v.Kind, v.Label, v.Msg, v.Decision, d)
 	}
 }
